@@ -655,6 +655,11 @@ def judge(src, path, resp, fault_line=None):
             reported.append(l)
             if l == len(ls) + 1 and c == 1 and (src == "" or src.endswith("\n")):
                 pass                               # the position just after the final newline (end of text)
+            elif l == len(ls) + 1 and c == 2 and (src == "" or src.endswith("\n")):
+                # the Eof token after a final newline: same stamping as D34 (one column after the end), on the empty
+                # line that follows the last newline; confirmed against the lexer's Eof token further down
+                fails.append(("position-outside", f"column {c} on line {l} of length 0 = length + 2 of the last non-blank line "
+                                                  f"(end-of-file token)"))
             elif not (1 <= l <= len(ls)):
                 ms = multiline_string(src)
                 q = f" (after a string literal that spans lines, opened on line {ms[1]})" if ms and ms[1] <= l else ""
